@@ -11,6 +11,7 @@ import WindVerif.Drv.TmpPool
 import WindVerif.Drv.Pool
 import WindVerif.Drv.FMap
 import WindVerif.Drv.Storage
+import WindVerif.Drv.StorageSeq
 import WindVerif.Drv.ForkFile
 import WindVerif.Drv.RecFile
 open WindVerif.Drv
@@ -33,6 +34,7 @@ def machines : List (String × Machine) := [
   ("pool", poolMachine),
   ("fmap", fmapMachine),
   ("storage", storageMachine),
+  ("storageseq", storageseqMachine),
   ("forkfile", forkfileMachine),
   ("recfile", recfileMachine)
 ]
